@@ -136,6 +136,27 @@ CHECKS["C18"] = (
 
 NOT_YET = {}
 
+# Added in the later rounds of the build phase (appended to the level text).
+ADDED = {
+    "C01": " Exhaustive `year_tables`: Easter, ISO weeks 1/52/53 and leap days against the model on the days around them in every year 1900..9999.",
+    "C04": " `arith_edges`: day offsets computed to land within 9 days of the first / last date chrono represents, of either end of the supported range, or next to an integer / duration limit. Negative interval-size bounds; a progress check on iter_range (the very same non-empty interval twice in a row = stuck = unbounded work).",
+    "C06": " When the reparsed tree differs from the original one, equivalence is checked on every day of the years the expression mentions and their neighbours.",
+    "C08": " From before 1900 the first opening is also computed with the reference model of C01 (independent of schedule_at); an eighth of the cases are constructed spills across a bound of the range, a quarter rare recurrences; holiday calendars reach into 1899.",
+    "C09": " Exhaustive `all_transitions`: every offset transition 1900..2045 of each of the 596 zones x expressions with a state change inside the skipped / repeated stretch x 4 instants around it.",
+    "C10": " first_after is queried from every date 1990..2085 of every calendar.",
+    "C11": " Days during which the zone offset changes are decided on the instants the local event times denote; exhaustive `transition_days`: every tz transition 1900..2045 of every zone owning a point of the 1-degree grid, on the local dates around it.",
+    "C12": " Strategy `border_args`: places a few metres apart on either side of a country / zone border (found by bisection on the library's own lookup), alternating within one process.",
+    "C14": " 4 % of the leaves have 20-142 ranges (sizes bracketing 32 / 64) expanded from a drawn seed.",
+    "C15": " `history_extremes`: histories over the first / last years chrono represents.",
+    "C17": " `single_owner`: provenance on generated expressions against the reference model (which rule's minutes survive on the day).",
+    "C18": " Values derived from one parsed value by clone().with_context (families) with a reference rebuilt from scratch; `hammer`: threads evaluating per-year computations in years colliding modulo powers of two.",
+    "C19": " Results of add_minutes / add_hours must be the value new(r / 60, r % 60) builds; Display under formatter flags; sub-second and leap-second NaiveTime inputs.",
+    "C20": " Operands of up to 3 000 elements (sizes bracketing powers of two); chains (a∪b)∪c with third operands below / above / interleaved and operands built with spare capacity.",
+    "C05": " 3 % of the sentences have 12-67 rules.",
+    "C13": " 4 % of the expressions have 12-67 rules (sizes bracketing 16 / 32 / 64).",
+}
+
+
 def main():
     props = [json.loads(l) for l in open(os.path.join(ROOT, "properties.jsonl"))]
     hooks_commits = []
@@ -150,6 +171,7 @@ def main():
         pid = p["id"]
         if pid in CHECKS:
             tech, text, note, ref = CHECKS[pid]
+            text += ADDED.get(pid, "")
             if pid in ("C01", "C02", "C05", "C06", "C07", "C13", "C16", "C17"):
                 tech += "; thorough tier adds a coverage-guided libFuzzer campaign whose target decodes bytes with the same generators and runs this property's oracle in-target"
             if pid == "C04":
